@@ -134,17 +134,12 @@ func UpdatePathAttrs4ByteAs(logger *slog.Logger, msg *bgp.BGPUpdate) {
 		return
 	}
 
+	// The number of AS numbers is counted as for the AS_PATH length
+	// (RFC 4271 9.1.2.2): confederation segments do not count.
 	asLen := 0
-	asConfedLen := 0
 	asParams := make([]bgp.AsPathParamInterface, 0, len(asAttr.Value))
 	for _, param := range asAttr.Value {
 		asLen += param.ASLen()
-		switch param.GetType() {
-		case bgp.BGP_ASPATH_ATTR_TYPE_CONFED_SET:
-			asConfedLen++
-		case bgp.BGP_ASPATH_ATTR_TYPE_CONFED_SEQ:
-			asConfedLen += len(param.GetAS())
-		}
 		asParams = append(asParams, param)
 	}
 
@@ -177,20 +172,27 @@ func UpdatePathAttrs4ByteAs(logger *slog.Logger, msg *bgp.BGPUpdate) {
 		}
 	}
 
-	if asLen+asConfedLen < as4Len {
+	if asLen < as4Len {
 		logger.Warn("AS4_PATH is longer than AS_PATH. ignore AS4_PATH",
 			slog.String("Topic", "Table"))
 		return
 	}
 
-	keepNum := asLen + asConfedLen - as4Len
+	// Take the leading keepNum AS numbers from AS_PATH. A confederation
+	// segment in front of or between the taken segments is kept as well.
+	keepNum := asLen - as4Len
 
 	newParams := make([]bgp.AsPathParamInterface, 0, len(asAttr.Value))
 	for _, param := range asParams {
-		if keepNum-param.ASLen() >= 0 {
+		l := param.ASLen()
+		switch {
+		case l == 0:
 			newParams = append(newParams, param)
-			keepNum -= param.ASLen()
-		} else {
+			continue
+		case keepNum >= l:
+			newParams = append(newParams, param)
+			keepNum -= l
+		case keepNum > 0:
 			// only SEQ param reaches here
 			newParams = append(newParams, bgp.NewAs4PathParam(param.GetType(), param.GetAS()[:keepNum]))
 			keepNum = 0
@@ -202,6 +204,10 @@ func UpdatePathAttrs4ByteAs(logger *slog.Logger, msg *bgp.BGPUpdate) {
 	}
 
 	for _, param := range as4Params {
+		if len(newParams) == 0 {
+			newParams = append(newParams, param)
+			continue
+		}
 		lastParam := newParams[len(newParams)-1]
 		lastParamAS := lastParam.GetAS()
 		paramType := param.GetType()
